@@ -187,6 +187,8 @@ def check_inject(case, ref, builders):
 def fault_cases():
     """real design faults caught by checking passes, and a generator body raising once"""
     return [("fault", k) for k in ("width", "missing-port", "orphan", "generator-once", "generator-nested", "generator-bad-params", "generator-fallback", "late-fault-shared-children")] + \
+        [("fault", f"flatten-fault-shared-children/{f}/{how}") for f in ("anon-missing-member", "bad-bundle-ref", "noconn-in-anon")
+         for how in ("list", "one-top")] + \
         [("fault", f"export-fault/{v}") for v in ("tuple", "list", "nested-paramclass", "object")] + \
         [("fault", f"repair-child-ports/{how}") for how in ("add-port", "remove-port", "widen-port")] + \
         [("fault", f"persistent/{f}/depth{d}") for f in ("width", "missing-port", "array-missing-port", "anon-width", "unnamed", "self-instance", "circular")
@@ -378,6 +380,57 @@ def check_fault(case, ref, builders):
             except Exception:
                 continue
             return (f"fault.persistent.accepted", f"{kind}: a later call through another entry point returned a result", {"case": repr(case)})
+        return None
+    if kind.startswith("flatten-fault-shared-children/"):
+        # a failure raised INSIDE the bundle-flattening pass, in a run in which healthy modules with bundle-valued ports
+        # were flattened before the failing one was reached (a sibling top of a list call, or sub-modules visited earlier):
+        # a different, valid parent of those healthy modules exports exactly as without the failed run
+        _, fault, how = kind.split("/")
+
+        def build():
+            @h.bundle
+            class Bus:
+                p, n = h.Signals(2)
+            Child = h.Module(name="FfChild")
+            Child.bus = Bus(port=True)
+            Child.r = h.R(r=1)(p=Child.bus.p, n=Child.bus.n)
+            UserA = h.Module(name="FfUserA")
+            UserA.b = Bus()
+            UserA.c = Child(bus=UserA.b)
+            Bad = h.Module(name="FfBad")
+            Bad.s = h.Signal()
+            if how == "one-top":
+                Bad.ua = UserA()
+            if fault == "anon-missing-member":
+                Bad.c = Child(bus=h.AnonymousBundle(p=Bad.s))
+            elif fault == "bad-bundle-ref":
+                Bad.b = Bus()
+                Bad.r = h.R(r=2)(p=Bad.b.p, n=Bad.b.nosuch)
+            else:
+                Bad.c = Child(bus=h.AnonymousBundle(p=Bad.s, n=h.NoConn()))
+            UserB = h.Module(name="FfUserB")
+            UserB.b1, UserB.b2 = Bus(), Bus()
+            UserB.c1 = Child(bus=UserB.b1)
+            UserB.c2 = Child(bus=h.AnonymousBundle(p=UserB.b2.n, n=UserB.b2.p))
+            UserB.ua = UserA()
+            return UserA, Bad, UserB
+        _, _, ref_b = build()
+        want = serialize(h.to_proto(ref_b))
+        ua, bad, ub = build()
+        try:
+            h.elaborate([ua, bad] if how == "list" else bad)
+        except Exception:
+            pass
+        else:
+            return None          # (this construct is accepted on this tree: no failed run to speak of)
+        try:
+            got = serialize(h.to_proto(ub))
+        except Exception as e:
+            return ("fault.flatten-fault.poisoned", f"{kind}: a valid design sharing sub-modules with the failed run is refused: "
+                                                    f"{type(e).__name__}: {str(e)[-140:]}", {"case": repr(case)})
+        if got != want:
+            return ("fault.flatten-fault.differs", f"{kind}: a valid design sharing sub-modules with the failed run exports differently",
+                    {"case": repr(case)})
         return None
     if kind == "late-fault-shared-children":
         # a parent that fails LATE (array width, found only when arrays are flattened) has already had its sound
